@@ -285,7 +285,7 @@ def merge(prop, tier, seed, t0, results):
             maxima[k] = max(maxima.get(k, 0), v)
         for k in (prop, "hist"):
             for s in res.get("samples", {}).get(k, []):
-                if len(samples) < 6:
+                if len(samples) < 6 and s not in samples:
                     samples.append(s)
         gate_broken += res.get("gate_broken_histories", 0)
         for f in res.get("failures", []):
